@@ -51,7 +51,7 @@ def run(ctx):
     cov = {"obligations": nob, "discharged": ndis - (nob - ndis if False else 0), "checker_cmd": "tools/coqbuild.sh (coqc 8.16.1 full .vo build) after translate/py2v.py /repo -> coq/Gen (both the .py and the .pyx side are regenerated)",
            "trusted_base": common.TRUSTED, "files": files, "traces_validated_against_impl": len(cases), "disagreements": len(dis),
            "input_distribution": dict(dist), "cases_also_run_on_extensions_built_from_tracked_c": tracked, "whole_projects_compared_with_extensions_blocked": whole["n"], "exhaustive": True,
-           "rule": "bounded grid: every index/boundary instant of windows x resolutions; every predicate pattern up to length 6 (quick) / 10 (thorough); every 7th minute (quick) / every minute (thorough) of a week x interval sets incl. cross-midnight, unordered and empty days; each on both twins (the .so rebuilt from the current .pyx) and on the extracted regenerated Gallina function; whole projects scheduled with the extensions loaded and blocked",
+           "rule": "bounded grid: every index/boundary instant of windows x resolutions; windows of 1, 3 and 10 years around 2^24 / 2^26 / 2^28 s; every predicate pattern up to length 6 (quick) / 10 (thorough); every 7th minute (quick) / every minute (thorough) of a week x interval sets incl. cross-midnight, unordered and empty days; each on both twins (the .so rebuilt from the current .pyx) and on the extracted regenerated Gallina function; whole projects scheduled with the extensions loaded and blocked",
            "samples": [{"case": c["f"], "args": c["a"][:14], "impl": i, "model": m} for c, i, m in list(zip(cases, impl, model))[:: max(1, len(cases) // 6)][:6]]}
     common.finish(ctx, "proof", cov, violations,
                   ["C ints of the compiled twins do not wrap: |index x resolution| < 2^31 s (horizons below 68 years), hour/minute components <= 1000",
